@@ -90,10 +90,11 @@ AcceptCodec(e) ==
 AcceptParse(e, P) ==
   LET t == Tok(e.s, e.rx)  L == e.L  o == e.o IN
   IF ~t.ok
-  THEN IF P = "C18" THEN IsNone(e.w) ELSE \A i \in 1..4 : IsNone(o[i])
+  THEN IF P = "C18" THEN IsNone(e.w) ELSE (\A i \in 1..4 : IsNone(o[i])) /\ IsNone(e.w)
   ELSE LET R == ParseR(t, e.rx, LF(L)) IN
        IF P = "C18" THEN ValIs(e.w, Wrap(R, L))
-       ELSE /\ (IF Fits(R, L) THEN ValIs(o[1], R) ELSE IsNone(o[1]))
+       ELSE /\ ValIs(e.w, Wrap(R, L))                                  \* parsing into Wrapping<F> = the wrapping form
+            /\ (IF Fits(R, L) THEN ValIs(o[1], R) ELSE IsNone(o[1]))
             /\ ValIs(o[2], Sat(R, L))
             /\ ValIs(o[3], Wrap(R, L))
             /\ ValIs(o[4], Wrap(R, L)) /\ o[4][3] = (IF Fits(R, L) THEN 0 ELSE 1)
